@@ -49,6 +49,23 @@ def main(argv=None):
                 if bad_silent:
                     print(f"ANALYSIS-ERROR property={pid} the checker raises an alarm on behaviour-preserving variant(s) {[f['id'] for f in bad_silent]} - checker bug, run blocked")
                     return 2
+        if args.tier == "thorough" and not args.replay and args.repo is None and not os.environ.get("CGSTATIC_NO_SELFTEST"):
+            # set-iteration orders of strings depend on the hash seed: re-run the quick obligations under other seeds
+            import subprocess
+
+            seeds_ok = []
+            for hs in ("1", "2", "3"):
+                env = dict(os.environ, CGSTATIC_HASHSEED=hs, CGSTATIC_NO_SELFTEST="1", VERIF_TIER="quick")
+                p = subprocess.run([str(VERIF / "check"), pid, "--tier", "quick", "--no-evidence", "--evidence-dir", f"/tmp/cgstatic-hs-{pid}-{hs}"], capture_output=True, text=True, env=env, cwd=str(VERIF))
+                subprocess.run(["rm", "-rf", f"/tmp/cgstatic-hs-{pid}-{hs}"])
+                if p.returncode == 0:
+                    seeds_ok.append(hs)
+                else:
+                    first = next((l for l in p.stdout.splitlines() if " violated " in l or l.startswith("ANALYSIS-ERROR")), "")
+                    chk.ob(f"{pid}.H.hash-order", f"hash seed {hs}::{first[:140]}", False, fact={"hash_seed": hs, "exit": p.returncode, "first_report": first[:300]},
+                           expect="the same verdict under every set-iteration order")
+            chk.extra["hash_seeds_explored"] = ["0"] + seeds_ok
+            print(f"[{pid}] set-iteration orders: quick obligations re-evaluated under hash seeds 1,2,3 -> ok for {seeds_ok}")
         flt = None
         if args.replay:
             rp = json.load(open(args.replay))
